@@ -24,11 +24,12 @@ SPEC = {
                                                  "C05/zero-sized-blocks-only-in-documented-cases", "C05/protobuf-round-trip-unchanged", "C05/serialisable"],
                 space=dict(anns=("none", "block"), bare=(False, True))),
     "C06": dict(vals=[VAL.c06_functions], clauses=["C06/surviving-instruction-keeps-its-function", "C06/inserted-code-belongs-to-the-function-of-its-block",
-                                                    "C06/entries-follow-the-code", "C06/function-without-blocks-disappears"], space=dict(funcs=(True,))),
+                                                    "C06/entries-follow-the-code", "C06/function-without-blocks-disappears", "C06/data-never-belongs-to-a-function"],
+                space=dict(funcs=(True,), patches=["plain", "jmpL2", "ret", "callg", "jcc", "lab", "lab0", "jmplab", "embdata", "twocalls"])),
     "C08": dict(vals=[VAL.c08_cfi], clauses=["C08/directives-still-evaluate-cleanly", "C08/instruction-inside-a-procedure-iff-it-was",
                                               "C08/unwind-state-unchanged-when-nothing-is-deleted", "C08/procedure-structure-directives-never-dropped",
                                               "C08/inserted-code-covered-by-the-enclosing-procedure", "C08/patch-directives-take-effect-inside-a-procedure"],
-                space=dict(cfis=("whole", "b1only", "endatb1", "b0b1", "b1b2"), patches=["plain", "cfi", "two"])),
+                space=dict(cfis=("whole", "b1only", "endatb1", "b0b1", "b1b2"), patches=["plain", "cfi", "two", "cfidup"])),
 }
 
 
